@@ -6,6 +6,7 @@ import XmppModel.Model.IbbReader
 import XmppModel.Model.IbbClose
 import XmppModel.Generated.C06
 import XmppModel.Lemmas.CorrAttrs
+import XmppModel.Model.CorrWrap
 /-!
 # C06 — every correlated wait ends exactly once with its own reply or its context error
 
@@ -550,5 +551,40 @@ example : getIDTyp [⟨.foreign, .id, 0⟩, ⟨.xmlns, .type, 0⟩, ⟨.none, .i
     = (some 7, some 2) := by decide
 
 end Attrs
+
+/-! ### Round C: the IQ helpers that own the response they wait for -/
+namespace Wrap
+open XmppModel.CorrWrap
+
+/-- whatever the reply looks like, exactly one party closes the response: the helper itself, or
+the caller to whom it was handed inside an iterator — never nobody (the serve loop would wait
+for the close for ever), never both (closing twice panics the hand-off channel) -/
+theorem C06_helper_response_closed_once (a : Api) (sh : Shape) :
+    (call a sh).helperCloses + (if (call a sh).handed then 1 else 0) = 1 := by
+  cases a <;> simp only [call, unmarshalIQ, iterIQ] <;> (repeat' split) <;> simp_all
+
+/-- a call that returns an error hands nothing to the caller (so the helper has closed the
+response), and only the iterator helpers ever hand something on -/
+theorem C06_helper_error_means_closed (a : Api) (sh : Shape) (h : (call a sh).err = true) :
+    (call a sh).handed = false ∧ (call a sh).helperCloses = 1 := by
+  cases a <;> simp only [call, unmarshalIQ, iterIQ] at h ⊢ <;> (repeat' split) <;> simp_all
+
+/-- the iterator helpers hand the response on exactly when they succeed; the others never do -/
+theorem C06_helper_handed_iff (a : Api) (sh : Shape) :
+    (call a sh).handed = ((a = .iter ∨ a = .iterElement) && !(call a sh).err) := by
+  cases a <;> simp only [call, unmarshalIQ, iterIQ] <;> (repeat' split) <;> simp_all
+
+/-- a reply whose addresses are not JIDs is an error for every helper -/
+theorem C06_helper_bad_address_is_error (a : Api) (sh : Shape) (h : sh.from_ = .invalid ∨ sh.to = .invalid) :
+    (call a sh).err = true := by
+  have hf : newIQFails sh = true := by
+    rcases h with h | h <;> simp [newIQFails, h]
+  cases a <;> simp [call, unmarshalIQ, iterIQ, hf]
+
+-- non-vacuity: the path on which only the deferred closer stands between a malformed reply and a stalled serve loop
+example : call .iter ⟨.result, .invalid, .absent, .one⟩ = ⟨true, false, 1⟩ := by decide
+example : call .iterElement ⟨.result, .valid, .valid, .nested⟩ = ⟨false, true, 0⟩ := by decide
+
+end Wrap
 
 end XmppModel.Props.C06
